@@ -1602,6 +1602,9 @@ func (w *W) opRead() string {
 	if (w.F.Prop == "C12" || w.F.Prop == "C15") && t.Chance(1, 8, "second-attachment-probe") {
 		w.aliasProbe(h)
 	}
+	if w.F.Prop == "C10" && t.Chance(1, 10, "collector-probe") {
+		w.collectorProbe()
+	}
 	if (w.F.Prop == "C12" || w.F.Prop == "C01" || w.F.Prop == "C10") && t.Chance(1, 12, "shared-section-merge-probe") {
 		w.sharedMergeProbe()
 	}
